@@ -13,6 +13,22 @@ import (
 
 var modeNames = map[string]string{"PUT_FORCE_FIRST": ".forceFirst", "PUT_FORCE_LAST": ".forceLast", "PUT_FIRST": ".first", "PUT_LAST": ".last"}
 
+// cachedHash: the rehash() of the type being transcribed reads `e.keyHash` (set per type by irFile)
+var cachedHash bool
+
+func readsKeyHash(fd *ast.FuncDecl) bool {
+	found := false
+	if fd != nil {
+		ast.Inspect(fd.Body, func(n ast.Node) bool {
+			if se, ok := n.(*ast.SelectorExpr); ok && se.Sel.Name == "keyHash" {
+				found = true
+			}
+			return true
+		})
+	}
+	return found
+}
+
 type irCtx struct {
 	keyName, valName string // parameter names
 	hashVars         map[string]bool
@@ -324,7 +340,8 @@ func methodIR(fd *ast.FuncDecl, isRemove bool) string {
 			case cond == "(this.count>=this.threshold)":
 				// rehash(); tab = this.table; index = <hash> % uint(len(tab))
 				ok := len(t.Body.List) == 3 && stmtCalls(t.Body.List[0]) == "this.rehash()" &&
-					stmtAssign(t.Body.List[1:2]) == "tab=this.table" && strings.HasPrefix(stmtAssign(t.Body.List[2:3]), "index=")
+					stmtAssign(t.Body.List[1:2]) == "tab=this.table" && strings.HasPrefix(stmtAssign(t.Body.List[2:3]), "index=") &&
+					indexExpr(c, strings.TrimPrefix(stmtAssign(t.Body.List[2:3]), "index="))
 				if ok {
 					out = append(out, ".growIfFull")
 				} else {
@@ -496,6 +513,10 @@ func newCellOK(c *irCtx, e ast.Expr) bool {
 				return false
 			}
 			if c.valName != "" && got["value"] != c.valName {
+				return false
+			}
+			// rehash() of this type re-buckets by the hash cached in the cell: the new cell must carry this.hash(key)
+			if cachedHash && !c.hashVars[got["keyHash"]] {
 				return false
 			}
 			return true
